@@ -34,8 +34,9 @@ func Range(start, end, step int) SortedInts {
 	}
 
 	if end < start {
-		start, end = end, start
+		//The elements are start, start - |step|, ... down to but excluding end. Generate them in ascending order.
 		step = -step
+		start, end = start-((start-end-1)/step)*step, start+1
 	}
 
 	tmp := make([]int, 0, (end-start+step-1)/step)
